@@ -156,7 +156,7 @@ impl Prop for P {
     const ENGINE: &'static str = "E3-vecmodel";
 
     fn cases(tier: Tier) -> u32 {
-        tier.pick(5000, 80000)
+        tier.pick(15000, 80000)
     }
 
     fn strategy(tier: Tier) -> BoxedStrategy<Case> {
